@@ -1,6 +1,54 @@
 """Property -> packs, bounded stand-ins, native replay harness, notes (read by pyvc.check)."""
 
 REGISTRY = {
+    "C16": dict(
+        packs=["par1", "par2", "par3", "par4"], level="proof",
+        replay=dict(script="replay/par.py", args=["C16", "{seed}", "small"], timeout=1500),
+        bounded=[dict(name="parallel-configurations", script="replay/par.py", args=["C16", "{seed}", "small"], timeout=1500,
+                      bound="real joblib.Parallel on threading/sequential (and a sample of loky) over n_jobs x batch_size x pre_dispatch x return_as grids, failing tasks/inputs, "
+                            "timeouts, instrumented input iterators, generator abandon/overlap scenarios")],
+        trusted=["backend contract (public extension API): every submitted batch runs at most once, its callback is invoked at most once with the results in item order or an error",
+                 "monitor rule: state written only under Parallel._lock with the lock invariant re-established before each release satisfies it in every interleaving (meta-theorem)",
+                 "queue.Queue FIFO, collections.deque, itertools.islice semantics", "function summaries used between the four parts of the pack mirror contracts proved in another part (link by inspection)"],
+        assumptions=["ordered mode for the in-order claims", "fixed batch size for the look-ahead bound", "BatchedCalls.__call__ / _get_sequential_output are shape-bounded (3 items)"],
+        undecided_clauses=["'as soon as' in wall-clock terms (10 ms polling) and garbage-collection timing"],
+    ),
+    "C09": dict(
+        packs=["par1", "par2", "par3", "par4"], level="proof",
+        replay=dict(script="replay/par.py", args=["C09", "{seed}", "small"], timeout=1500),
+        bounded=[dict(name="parallel-configurations", script="replay/par.py", args=["C09", "{seed}", "small"], timeout=1500,
+                      bound="real joblib.Parallel on threading/sequential (and a sample of loky) over n_jobs x batch_size x pre_dispatch x return_as grids, failing tasks/inputs, "
+                            "timeouts, instrumented input iterators, generator abandon/overlap scenarios")],
+        trusted=["backend contract (public extension API): every submitted batch runs at most once, its callback is invoked at most once with the results in item order or an error",
+                 "monitor rule: state written only under Parallel._lock with the lock invariant re-established before each release satisfies it in every interleaving (meta-theorem)",
+                 "queue.Queue FIFO, collections.deque, itertools.islice semantics", "function summaries used between the four parts of the pack mirror contracts proved in another part (link by inspection)"],
+        assumptions=["ordered mode for the in-order claims", "fixed batch size for the look-ahead bound", "BatchedCalls.__call__ / _get_sequential_output are shape-bounded (3 items)"],
+        undecided_clauses=["once a task has failed no further items are taken: the abort flag is read outside the lock in dispatch_one_batch, so one more slice may be pulled by a callback that already passed the test - neither provable at lock granularity nor refutable without a scheduler (undecided clause, not a finding)", "batch_size='auto': the look-ahead bound is proved for a fixed batch size"],
+    ),
+    "C04": dict(
+        packs=["par1", "par2", "par3", "par4"], level="proof",
+        replay=dict(script="replay/par.py", args=["C04", "{seed}", "small"], timeout=1500),
+        bounded=[dict(name="parallel-configurations", script="replay/par.py", args=["C04", "{seed}", "small"], timeout=1500,
+                      bound="real joblib.Parallel on threading/sequential (and a sample of loky) over n_jobs x batch_size x pre_dispatch x return_as grids, failing tasks/inputs, "
+                            "timeouts, instrumented input iterators, generator abandon/overlap scenarios")],
+        trusted=["backend contract (public extension API): every submitted batch runs at most once, its callback is invoked at most once with the results in item order or an error",
+                 "monitor rule: state written only under Parallel._lock with the lock invariant re-established before each release satisfies it in every interleaving (meta-theorem)",
+                 "queue.Queue FIFO, collections.deque, itertools.islice semantics", "function summaries used between the four parts of the pack mirror contracts proved in another part (link by inspection)"],
+        assumptions=["ordered mode for the in-order claims", "fixed batch size for the look-ahead bound", "BatchedCalls.__call__ / _get_sequential_output are shape-bounded (3 items)"],
+        undecided_clauses=["the call always terminates (liveness over threads/processes) is not decided"],
+    ),
+    "C01": dict(
+        packs=["par1", "par2", "par3", "par4"], level="proof",
+        replay=dict(script="replay/par.py", args=["C01", "{seed}", "small"], timeout=1500),
+        bounded=[dict(name="parallel-configurations", script="replay/par.py", args=["C01", "{seed}", "small"], timeout=1500,
+                      bound="real joblib.Parallel on threading/sequential (and a sample of loky) over n_jobs x batch_size x pre_dispatch x return_as grids, failing tasks/inputs, "
+                            "timeouts, instrumented input iterators, generator abandon/overlap scenarios")],
+        trusted=["backend contract (public extension API): every submitted batch runs at most once, its callback is invoked at most once with the results in item order or an error",
+                 "monitor rule: state written only under Parallel._lock with the lock invariant re-established before each release satisfies it in every interleaving (meta-theorem)",
+                 "queue.Queue FIFO, collections.deque, itertools.islice semantics", "function summaries used between the four parts of the pack mirror contracts proved in another part (link by inspection)"],
+        assumptions=["ordered mode for the in-order claims", "fixed batch size for the look-ahead bound", "BatchedCalls.__call__ / _get_sequential_output are shape-bounded (3 items)"],
+        undecided_clauses=["fairness / termination of the retrieval loop; behaviour of third-party backends", "generator_unordered ordering is only covered by _register_outcome's exactly-once enqueue"],
+    ),
     "C03": dict(
         packs=["c03", "c13"], level="proof",
         replay=dict(script="replay/c03.py", args=[], timeout=900),
@@ -164,6 +212,10 @@ NOT_APPLICABLE = {
 }
 
 MANIFEST_TEXT = {
+    "C16": dict(text='_retrieve: when the head job is finished its results are yielded with no blocking call on that path and without looking at later jobs; results in item order; _register_outcome enqueues an unordered tracker exactly once on the pending->final transition under the lock; GeneratorExit at any yield sets the flags, aborts before tearing down and re-establishes the quiescent state; _reset_run_tracking raises RuntimeError iff already running, tested and set under the lock before any counter is touched; stale callbacks are ignored.', note='Wall-clock promptness and GC timing are not decided.'),
+    "C09": dict(text="dispatch_one_batch pulls from the input only with the lock held, only when the look-ahead queue is empty, at most batch_size*n_jobs items per call, and nothing once it has seen the abort flag; the lock invariant bounds the look-ahead by batch_size*n_jobs; a completion callback dispatches at most one further batch; pre_dispatch='all' clears the lazy iterator; eval_ applies only whitelisted operators to constants (structural recursion with its own contract as induction hypothesis).", note="The clause 'no further items after a failure' is undecided across threads (flag read outside the lock)."),
+    "C04": dict(text="Quiescent state (not running, no jobs) proved at every exit of _get_outputs and _get_sequential_output (normal, task error, BaseException, GeneratorExit, foreign-thread close); __call__ starts every call with a fresh call id and an empty look-ahead queue under the lock; the task's own exception object is what _return_or_raise / _raise_error_fast raise; a failing input iterator is registered as a failed job and never swallowed; timeout arithmetic of get_status; _abort calls abort_everything at most once with ensure_ready = managed.", note='One fix commit (stale look-ahead batches after an aborted call). Liveness not decided.'),
+    "C01": dict(text='Per-function contracts of the whole dispatcher with a lock invariant over a segment model of the input: dispatch_one_batch partitions each slice into consecutive non-empty batches (inductive invariant: the look-ahead queue tiles exactly the taken-but-undispatched tasks), hands the head of the tiling to _dispatch under the lock; _dispatch registers the tracker before submit; _register_outcome registers once; _retrieve pops exactly the head job under the lock and every yielded value is proved to be the next result of the sequential loop; the tail loop of _get_outputs continues that order; sequential path and BatchedCalls in item order.', note='Cross-thread composition by the monitor rule (not re-proved); backend behaviour assumed; summaries between parts linked by inspection.'),
     "C03": dict(
         text="Format agreement between writer and reader, proved on the real code with the compressor table rebuilt from the sources on every run: dump's total decision "
              "table over every compress form x target kind (explicit (method, level) wins over the extension; an extension selects its compressor; level 0 without "
